@@ -24,7 +24,7 @@ ASSUMPTIONS = [
     "not demanded: OpenAPI style/explode variants, parameter order, extra transport headers",
     "argument names are derived with the generator's own sanitiser; an operation whose package does not import is C01's subject and only counted",
 ]
-BOUND = {"quick": "~330 operations, <=3 optional arguments each, 2 value sets", "thorough": "full location x required x kind x name product (768 single-parameter shapes) + the rest"}
+BOUND = {"quick": "~340 operations inline and through component refs, every subset of <=3 optional arguments, 2 value sets; all calls of a pack on one client with a transport default header", "thorough": "full location x required x kind x name product (768 single-parameter shapes) + the rest"}
 CHUNK = 2
 PACK = 8
 P = ops.param
